@@ -236,7 +236,7 @@ func c06Case(c *core.Ctx, rng *rand.Rand, dir string, idx int, a *apiTrack, st *
 		var dump string
 		dumps.Range(func(_, v interface{}) bool { dump = v.(string); return false })
 		cls := hangClass(dump)
-		if cls == "deadlock:send-under-lock+api-blocked" || cls == "send-under-lock" || cls == "no-reader-goroutine" {
+		if cls == "deadlock:send-under-lock+api-blocked" || cls == "send-under-lock" || cls == "no-reader-goroutine" || cls == "lock-leaked" {
 			c.Violate("close-did-not-return", fmt.Sprintf("[%s] %d Close calls did not return (%s)", params, notRet, cls), dumpExcerpt(dump))
 		} else {
 			c.Inconclusive(fmt.Sprintf("[%s] Close not returned at the watchdog, dump class %s", params, cls))
